@@ -24,36 +24,39 @@ type Behaviour struct {
 // Behaviour kinds shared by the exchange checks. "correct" answers like an honest server
 // that holds the whole canonical chain.
 const (
-	bhCorrect     = "correct"
-	bhNotFound    = "not_found"
-	bhEmpty       = "empty"               // close without a frame
-	bhHang        = "hang"                // never answer (until the stream is reset by the client)
-	bhReset       = "reset"               // reset the stream
-	bhGarbage     = "garbage_body"        // OK frame with an undecodable body
-	bhUnknownCode = "unknown_status"      // frame with status code 7
-	bhUnknownBody = "unknown_status_body" // frames with a status code outside the protocol (7) carrying the honest headers
-	bhInvalidCode = "invalid_status"      // frame with status code 0
-	bhRawGarbage  = "raw_garbage"         // bytes that are no frame at all
-	bhTruncated   = "truncated"           // half a frame, then close
-	bhOversized   = "oversized_len"       // length prefix of 2 GiB
-	bhWrongChain  = "wrong_chain"         // header with another chain id
-	bhBadValidate = "bad_validate"        // header failing Validate
-	bhForged      = "forged"              // header of another lineage at position K
-	bhOtherHeader = "other_header"        // a valid canonical header, but not the requested one (K heights away)
-	bhShift       = "shift"               // range answered from origin+K (K may be negative)
-	bhRepeatPrev  = "repeat_prev"         // the previous chunk again
-	bhReorder     = "reorder"             // range with two headers swapped
-	bhShortPrefix = "short_prefix"        // only the first K (>=1) headers
-	bhOverlap     = "overlap"             // starts one before origin
-	bhMore        = "more"                // more headers than asked
-	bhDupInside   = "dup_inside"          // one header twice in the run
-	bhGapInside   = "gap_inside"          // one header missing in the run
-	bhNilBodyOK   = "ok_empty_body"       // OK status with empty body
-	bhSeveral     = "several_frames"      // two frames for a single-header request
-	bhCaseChain   = "chain_case"          // header whose chain id differs only in case
-	bhNoChain     = "no_chain"            // header with an empty chain id
-	bhChainPrefix = "chain_prefix"        // header whose chain id lacks the last character
-	bhShiftInside = "shift_inside"        // a run that starts late but still ends inside the requested window
+	bhCorrect       = "correct"
+	bhNotFound      = "not_found"
+	bhEmpty         = "empty"               // close without a frame
+	bhHang          = "hang"                // never answer (until the stream is reset by the client)
+	bhReset         = "reset"               // reset the stream
+	bhGarbage       = "garbage_body"        // OK frame with an undecodable body
+	bhUnknownCode   = "unknown_status"      // frame with status code 7
+	bhUnknownBody   = "unknown_status_body" // frames with a status code outside the protocol (7) carrying the honest headers
+	bhInvalidCode   = "invalid_status"      // frame with status code 0
+	bhRawGarbage    = "raw_garbage"         // bytes that are no frame at all
+	bhTruncated     = "truncated"           // half a frame, then close
+	bhOversized     = "oversized_len"       // length prefix of 2 GiB
+	bhWrongChain    = "wrong_chain"         // header with another chain id
+	bhBadValidate   = "bad_validate"        // header failing Validate
+	bhForged        = "forged"              // header of another lineage at position K
+	bhOtherHeader   = "other_header"        // a valid canonical header, but not the requested one (K heights away)
+	bhShift         = "shift"               // range answered from origin+K (K may be negative)
+	bhRepeatPrev    = "repeat_prev"         // the previous chunk again
+	bhReorder       = "reorder"             // range with two headers swapped
+	bhShortPrefix   = "short_prefix"        // only the first K (>=1) headers
+	bhOverlap       = "overlap"             // starts one before origin
+	bhMore          = "more"                // more headers than asked
+	bhDupInside     = "dup_inside"          // one header twice in the run
+	bhGapInside     = "gap_inside"          // one header missing in the run
+	bhNilBodyOK     = "ok_empty_body"       // OK status with empty body
+	bhSeveral       = "several_frames"      // two frames for a single-header request
+	bhCaseChain     = "chain_case"          // header whose chain id differs only in case
+	bhNoChain       = "no_chain"            // header with an empty chain id
+	bhChainPrefix   = "chain_prefix"        // header whose chain id lacks the last character
+	bhPanicValidate = "panic_validate"      // header on which the type's Validate panics (C05 only: needs vh.ArmPanics)
+	bhPanicVerify   = "panic_verify"        // header on which the type's Verify panics
+	bhPanicDecode   = "panic_decode"        // bytes on which the type's UnmarshalBinary panics
+	bhShiftInside   = "shift_inside"        // a run that starts late but still ends inside the requested window
 )
 
 type peerReqLog struct {
@@ -278,6 +281,12 @@ func (p *scriptedPeer) handle(s network.Stream) {
 		mutate(vh.AdvChainPrefix)
 	case bhBadValidate:
 		mutate(vh.AdvBadValidate)
+	case bhPanicValidate:
+		mutate(vh.AdvPanicValidate)
+	case bhPanicVerify:
+		mutate(vh.AdvPanicVerify)
+	case bhPanicDecode:
+		mutate(vh.AdvPanicDecode)
 	case bhForged:
 		mutate(vh.AdvForged)
 	case bhCaseChain:
